@@ -4,12 +4,51 @@ import (
 	"verifharness/evid"
 	"verifharness/gen"
 	"verifharness/gen/rt"
+	"verifharness/tsrun"
 )
 
 type evidWorkerOut = evid.WorkerOut
 
-func tsRunBatch(w *Worker, b *gen.Batch, all []*obs) {}
-func tsExpect(p rt.Result) rt.Result               { return p }
-func c07Corpus(w *Worker, base []*genCase) []*genCase { return base }
-func c17GenJudge(w *Worker, o *obs, variants []string, bad func(kind, variant, in, msg string, detail map[string]interface{})) {
+// tsRunBatch erases the types of every generated TypeScript parser of the
+// batch and runs all inputs in one Node process.
+func tsRunBatch(w *Worker, b *gen.Batch, all []*obs) {
+	var jobs []tsrun.Job
+	idx := map[string]*obs{}
+	for _, o := range all {
+		it := o.items[gen.TS]
+		if it == nil || it.GenDiag != "" {
+			continue
+		}
+		js, deleted, err := tsrun.EraseFile(it.File)
+		if err != nil {
+			w.Note("INTERNAL: " + err.Error())
+			continue
+		}
+		w.Count("ts_type_spans_erased", int64(len(deleted)))
+		idx[it.Pkg] = o
+		jobs = append(jobs, tsrun.Job{Pkg: it.Pkg, File: js, Inputs: o.inputs, NStates: o.vw.NStates, NSyms: len(o.vw.V.G.Symbols)})
+	}
+	if len(jobs) == 0 {
+		return
+	}
+	err := tsrun.Run(b.Dir, jobs, func(out *tsrun.Out) {
+		o := idx[out.Pkg]
+		switch out.Kind {
+		case "load":
+			if out.Err != "" {
+				o.items[gen.TS].BuildErr = out.Err
+			}
+		case "run":
+			o.runs[gen.TS] = append(o.runs[gen.TS], out.Res)
+		case "dump":
+			o.dumps[gen.TS] = out.Dump
+		}
+	})
+	if err != nil {
+		w.Note("INTERNAL: " + err.Error())
+	}
 }
+
+// tsExpect adapts the model prediction to the TypeScript driver: it has no
+// trace and reports errors by logging and returning null (same class).
+func tsExpect(p rt.Result) rt.Result { return p }
